@@ -90,7 +90,8 @@ def write_nc(path, spec, rng, shift=0):
             shape = tuple(vis[d] for d in vd)
             cnt = int(np.prod(shape)) if shape else 1
             if ty == "S1":
-                data = np.array([bytes([97 + (i % 26)]) for i in range(cnt)], dtype="S1").reshape(shape)
+                # (every third character is a blank: a stored blank is a stored character)
+                data = np.array([b" " if i % 3 == 1 else bytes([97 + (i % 26)]) for i in range(cnt)], dtype="S1").reshape(shape)
             elif ty[0] == "f":
                 data = (np.arange(cnt) * 0.75 - 2 + shift).astype(ty).reshape(shape)
                 if fillv and rng.random() < 0.7:
@@ -160,7 +161,8 @@ def main():
                 def grp(dims, vars_, subs):
                     return {"dims": dims, "vars": vars_, "subs": subs, "attrs": {}, "unlimited": None}
                 D0, D1 = DIMNAMES[0], DIMNAMES[1]
-                spec = grp({D0: 4, D1: 3}, [(VARNAMES[0], "i4", [D0], {}, False)], [
+                spec = grp({D0: 4, D1: 3}, [(VARNAMES[0], "i4", [D0], {}, False), (VARNAMES[3], "S1", [D0], {}, False),
+                                            (VARNAMES[4], "S1", [D1, D0], {}, False)], [
                     (GROUPS[0], grp({D0: 2}, [(VARNAMES[0], "i4", [D0, D1], {}, False)],
                                     [(GROUPS[2], grp({}, [(VARNAMES[1], "f8", [D0], {}, False)], []))])),
                     (GROUPS[1], grp({}, [(VARNAMES[1], "i4", [D0], {}, False), (VARNAMES[2], "f4", [D1, D0], {}, False)], []))])
